@@ -129,6 +129,7 @@ pub fn run(args: &Args) -> J {
         "stdio" => stdio::run(args, &mut rep),
         "mirismoke" => mirismoke::run(args, &mut rep),
         "c14fault" => faultvar::run_c14(args, &mut rep),
+        "c05fault" => faultvar::run_c05(args, &mut rep),
         "c12fault" => faultvar::run_c12(args, &mut rep),
         "c18" => c18::run(args, &mut rep),
         "c19" => c19::run(args, &mut rep),
